@@ -528,6 +528,26 @@ func runC09(c *Ctx, w *World, r *Report) {
 			if !okCmp {
 				bad = "the masked byte is not compared with b[len(b)-2]"
 			}
+			// lexicographic order: the last byte decides only when the leading bytes compared equal
+			okOrder := false
+			for _, cd := range fa.Conds(bo.Block()) {
+				cmp, ok := cd.V.(*ssa.BinOp)
+				if !ok || !(cmp.Op == token.EQL && cd.Pol || cmp.Op == token.NEQ && !cd.Pol) {
+					continue
+				}
+				for _, side := range [2][2]ssa.Value{{cmp.X, cmp.Y}, {cmp.Y, cmp.X}} {
+					call, isCall := stripConv(side[0]).(*ssa.Call)
+					if k, isK := constInt64(stripConv(side[1])); !isCall || !isK || k != 0 {
+						continue
+					}
+					if f := call.Common().StaticCallee(); f != nil && (f == fns["bitstr.cmpBytes"] || calleeName(call.Common()) == "bytes.Compare") {
+						okOrder = true
+					}
+				}
+			}
+			if !okOrder && bad == "" {
+				bad = "the masked last byte is examined at " + w.InstrPos(bo) + " without the comparison of the leading bytes having returned 0 first: an earlier byte must decide before a later one (lexicographic order)"
+			}
 		})
 		if !found && bad == "" {
 			bad = "no a[k] & b[k+1] masking found"
